@@ -62,10 +62,16 @@ def random_case(rng, tier):
                 crashes[str(boundary)] = 2 if rng.random() < 0.15 else 1
     media = [rng.choice(persist.MEDIA) for _ in range(3)]
     case = {'program': program, 'crashes': crashes, 'media': media, 'loader': rng.choice(['default', 'default', 'custom'])}
+    if rng.random() < 0.2:
+        # "between the return and the next step" in the narrowest sense: the checkpoint is written while the state of the
+        # step that has just returned is being left (EXITING_STATE).  The restored process may execute that step once more -
+        # its command had not taken effect - and then the command means what it says
+        case['crash_on_exit'] = sorted({rng.randint(1, len(program['steps']) + 2) for _ in range(rng.randint(1, 2))})
     for number, step in enumerate(program['steps']):
         if step['ret']['t'] == 'continue' and rng.random() < 0.3:
             step['ret']['token'] = number  # an argument with identity
-    if rng.random() < 0.3:
+    if rng.random() < 0.3 and not case.get('crash_on_exit'):
+        # (not together with exit-phase checkpoints: a step executed twice sees what its first execution did to its arguments)
         # steps that work on their arguments in place; checkpoints kept as Bundle objects or in the bundled persisters; the
         # instance runs on for a few boundaries after its checkpoint before it is lost
         for step in program['steps']:
@@ -88,7 +94,7 @@ def shrink(case):
         candidate = copy.deepcopy(case)
         del candidate['lag'][key]
         yield candidate
-    for key in ('pause_in_step', 'crash_on_paused', 'crash_on_played'):
+    for key in ('pause_in_step', 'crash_on_paused', 'crash_on_played', 'crash_on_exit'):
         for i in range(len(case.get(key) or [])):
             candidate = copy.deepcopy(case)
             del candidate[key][i]
@@ -121,7 +127,8 @@ def run(case):
     seams.begin_case()
     runner = persist.RestartRun(case['program'], case.get('crashes'), case.get('media'), case.get('loader', 'default'),
                                 pause_in_step=case.get('pause_in_step'), crash_on_paused=case.get('crash_on_paused'),
-                                crash_on_played=case.get('crash_on_played'), lag=case.get('lag'))
+                                crash_on_played=case.get('crash_on_played'), lag=case.get('lag'),
+                                crash_on_exit=case.get('crash_on_exit'))
     try:
         proc = runner.run()
         if runner.runaway is not None:
@@ -150,8 +157,16 @@ def run(case):
 
 def _oracle(runner, proc, result, case):
     program = case['program']
-    model = programs.model_run(program, 'trace')
     events = runner.world.events
+    # steps whose state was being left when a checkpoint was written and restored: executed once more
+    repeats, seen = set(), 0
+    for event in events:
+        if event[0] == 'step':
+            seen += 1
+        elif event[0] == 'crash' and event[2] == 'exit:running' and seen:
+            repeats.add(seen - 1)
+            result.counters['probe:restore_from_exit_phase'] += 1
+    model = programs.model_run(program, 'trace', repeats=repeats)
     got = [[e[2], e[3], e[4]] for e in events if e[0] == 'step']
     want = model['trace']
 
@@ -166,7 +181,7 @@ def _oracle(runner, proc, result, case):
             continue
         if event[0] == 'crash':
             result.counters[f'medium:{event[3]}'] += 1
-            if '-notification' in str(event[2]):
+            if '-notification' in str(event[2]) or str(event[2]).startswith('exit:'):
                 result.counters['probe:restore_from_paused_notification'] += 1
                 continue
             result.counters['probe:restore_in_waiting' if event[2] == 'waiting' else 'probe:restore_before_continuation'] += 1
